@@ -161,6 +161,19 @@ class Engine:
                 return d["fields"][name]
         return None
 
+    def init_assigned_value(self, I, ref, cls, name):
+        for c in self.mro(cls):
+            fi = self.src.funcs.get(c + ".__init__")
+            if fi is None:
+                continue
+            for n in ast.walk(fi.node):
+                if isinstance(n, ast.Assign) and len(n.targets) == 1 and isinstance(n.targets[0], ast.Attribute) \
+                        and isinstance(n.targets[0].value, ast.Name) and n.targets[0].value.id == "self" \
+                        and n.targets[0].attr == name:
+                    fr = Frame(fi, {"self": ref}, fi.module, fi.cls)
+                    return I.eval(n.value, fr)
+        raise Unsupported("no assignment to self.%s in %s.__init__" % (name, cls))
+
     def class_is_open(self, cls):
         return True
 
